@@ -10,7 +10,11 @@
 //	    modes: the real timing WfDispatcher on a real compute unit's register
 //	    files, and a real emulation compute unit fed with MapWGReqs;
 //	L3  the real driver's multi-GPU split: WGFilter closures taken from the
-//	    LaunchKernelReqs a real driver.Driver sends for a unified device.
+//	    LaunchKernelReqs a real driver.Driver sends for a unified device;
+//	L4  a counting kernel on the real r9nano timing platform with the command
+//	    processors' dispatchers rebuilt to each dispatching algorithm
+//	    (partition with work stealing, round-robin, greedy): final counters and
+//	    the MapWGReq multiset per launch.
 package main
 
 import (
@@ -20,19 +24,28 @@ import (
 	"log"
 	"os"
 	"strings"
+	"sync"
 
 	"verifharness/vlib"
+	"verifharness/vlib/kern"
 )
 
 // layer is one family of cases. Cases returns the list for the tier (a pure
 // function of seed and tier); Run judges one case.
 type layer struct {
-	Name  string
-	Cases func(c *vlib.Check) []any
-	Run   func(rec vlib.Recorder, cs any)
+	Name    string
+	Cases   func(c *vlib.Check) []any
+	Run     func(rec vlib.Recorder, cs any)
+	Workers int // concurrent cases (0 = one per CPU)
+	// Background layers are started first and run beside the others.
+	Background bool
+	// First cases (the canonical battery) finish before the others start, so
+	// that their witnesses are the recorded ones.
+	First func() int
 }
 
 var layers = []layer{
+	{Name: "L4", Cases: l4Cases, Run: func(rec vlib.Recorder, cs any) { runL4(rec.(*vlib.Check), cs.(*dispCase)) }, Workers: 8, Background: true, First: func() int { return len(canonicalDisp()) }},
 	{Name: "L1", Cases: l1Cases, Run: func(rec vlib.Recorder, cs any) { runL1(rec, cs.(*geomCase)) }},
 	{Name: "L2", Cases: l2Cases, Run: func(rec vlib.Recorder, cs any) { runL2(rec, cs.(*regCase)) }},
 	{Name: "L3", Cases: l3Cases, Run: func(rec vlib.Recorder, cs any) { runL3(rec, cs.(*drvCase)) }},
@@ -49,7 +62,12 @@ func replay(c *vlib.Check, b []byte) {
 		fmt.Println("cannot parse replay:", err)
 		os.Exit(2)
 	}
-	if strings.Contains(string(f.Witness.Case), "\"l2\":true") || strings.Contains(string(f.Witness.Case), "\"l2\": true") {
+	if strings.Contains(string(f.Witness.Case), "\"l4\":true") || strings.Contains(string(f.Witness.Case), "\"l4\": true") {
+		var d dispCase
+		_ = json.Unmarshal(f.Witness.Case, &d)
+		runL4(c, &d)
+		l4Cleanup()
+	} else if strings.Contains(string(f.Witness.Case), "\"l2\":true") || strings.Contains(string(f.Witness.Case), "\"l2\": true") {
 		var r regCase
 		_ = json.Unmarshal(f.Witness.Case, &r)
 		runL2(c, &r)
@@ -66,6 +84,15 @@ func replay(c *vlib.Check, b []byte) {
 }
 
 func main() {
+	if os.Getenv("C08_L4_DUMP") != "" { // development aid: the counting kernel as the simulator's decoder sees it
+		lines, err := kern.Disassemble(countKernel(7, 16384, 128))
+		fmt.Println(strings.Join(lines, "\n"), err)
+		return
+	}
+	if vlib.IsChild() && len(os.Args) > 2 && os.Args[1] == "l4child" {
+		l4Child()
+		return
+	}
 	// read a replay file before vlib.Start, which removes stale replay files
 	// of the same (tier, seed)
 	var replayData []byte
@@ -88,23 +115,48 @@ func main() {
 		}
 	}
 	only := os.Getenv("C08_LAYERS") // e.g. "L1,L3" (debugging aid)
+	// L4 spends its time in child processes (8 at a time, 2 threads each): it
+	// runs beside the in-process layers
+	var bg sync.WaitGroup
 	for _, l := range layers {
 		if only != "" && !strings.Contains(only, l.Name) {
 			continue
 		}
-		cases := l.Cases(c)
-		vlib.Parallel(len(cases), 0, func(i int) { l.Run(c, cases[i]) })
-		c.Count("cases_"+l.Name, int64(len(cases)))
+		l := l
+		run := func() {
+			cases := l.Cases(c)
+			first := 0
+			if l.First != nil {
+				first = l.First()
+				vlib.Parallel(first, l.Workers, func(i int) { l.Run(c, cases[i]) })
+			}
+			vlib.Parallel(len(cases)-first, l.Workers, func(i int) { l.Run(c, cases[first+i]) })
+			c.Count("cases_"+l.Name, int64(len(cases)))
+		}
+		if l.Background {
+			bg.Add(1)
+			go func() { defer bg.Done(); run() }()
+		} else {
+			run()
+		}
 	}
+	bg.Wait()
+	l4Cleanup()
 	c.Finish(vlib.FinishOpts{
 		Rule: "case = dispatch geometry (grid 1-3 D, work-group size with product <= 1024, optional work-group filter, iteration by NextWG or by Skip partitions), " +
 			"generated from VERIF_SEED plus a fixed canonical battery; every enabled lane of every wavefront of every produced work-group is decoded the way both " +
 			"compute units do (work-item FirstWiFlatID+lane, decomposed by the work-group's SizeX/SizeY); L3 cases take the filters out of the LaunchKernelReqs of a real driver; " +
-			"non-trivial = distinct geometry that has a partial work-group or a non-power-of-two work-group size",
+			"non-trivial = distinct geometry that has a partial work-group or a non-power-of-two work-group size; " +
+			"L4 case = 2-5 launches of a counting kernel (out[gid] += 1 after a per-work-group delay loop) through the real driver on the r9nano timing platform (1-2 GPUs, 1-2 queues) whose command processors' " +
+			"dispatchers were rebuilt to partition / round-robin / greedy (or left as built); the final buffer must hold init+1 for every work-item of the grid and init behind it, and the MapWGReqs of every launch " +
+			"must name every work-group exactly once; an L4 partition case is non-trivial if a compute unit received a work-group of another partition (steal)",
 		Assumptions: []string{
 			"lane l of a wavefront is work-item FirstWiFlatID+l with x = id % SizeX, y = id / SizeX % SizeY, z = id / (SizeX*SizeY) (emu.ComputeUnit.initWfRegs and cu.WfDispatcherImpl.initRegisters, read)",
 			"grid and work-group sizes are >= 1 in every dimension; work-group size product <= 1024",
 			"L3: the driver is ticked on the monitor's goroutine against fake command processors; copies use the global-storage middleware",
+			"L4: a work-item executed k times adds k to its own element (read-modify-write on the work-item's own dword, no other writer); a MapWGReq is attributed to a launch by the GridSizeX of its packet (unique within a case); " +
+				"partition p of a launch holds work-groups [p*k, (p+1)*k) with k = ceil(NumWG/64) and belongs to the p-th registered compute unit (partitionAlgorithm.StartNewKernel, read); " +
+				"the dispatchers are replaced through cp.VerifRebuildDispatchers and the platform's compute units registered again in their original order; a launch that leaves the engine idle is reported as never completing",
 			"L2: registers are read right after the real initialisers ran (timing: WfDispatcherImpl.DispatchWf on the CU's register files; emulation: CU hook at the first instruction, s_endpgm); " +
 				"SGPR positions follow the monitor's model of the enabled user/system SGPRs; queue-ptr and private-segment-size flags are not generated (no register reserved in either mode, C02 decision)",
 		},
@@ -115,6 +167,8 @@ func main() {
 			"l2_cases": 200, "l2_wavefronts_compared": 5000, "l2_timing_lanes": 100000, "l2_emu_lanes": 100000,
 			"l2_cases_v5": 50, "l2_cases_v3": 50, "l2_cases_3d_xy_plane_not_multiple_of_64": 50,
 			"l2_timing_grids_covered_exactly": 100, "l2_emu_grids_covered_exactly": 100,
+			"l4_cases_completed": 12, "l4_launches": 25, "l4_launches_partition": 15, "l4_launches_round-robin": 2, "l4_work_items_checked": 500000,
+			"l4_map_wg_reqs": 5000, "l4_partition_steals": 300, "l4_canonical_partition_steals": 150, "l4_partition_launches_with_steals": 10,
 		},
 	})
 }
